@@ -34,6 +34,8 @@ func verifHarness_Fam(prop, fam, budget, maxList int) {
 		verifC17Parsed(x, b.entry)
 	case 18:
 		verifC18(x, b.entry)
+	case 19:
+		verifC19Parsed(x, b.entry)
 	}
 }
 
